@@ -26,7 +26,8 @@ class Ob:
     def __init__(s, name, harness, roots, what, bound, stubs=(), ir='inl', model='bit', rename=None, shrink=(),
                  variants=None, unwind=None, unwindset=(), flags=(), timeout=300, mem_gb=8, tier='quick', real=True,
                  validate=True, nvec=60, wrap_files=False, excludes=(), defines=None, witness=True, no_unwind_assert=False,
-                 solver='cadical', real_stub_syms=()):
+                 solver='cadical', real_stub_syms=(), retry_defines=(), fallback=None):
+        s.retry_defines = list(retry_defines); s.fallback = fallback
         s.name, s.harness, s.roots, s.what, s.bound = name, harness, list(roots), what, bound
         s.stubs, s.ir, s.model, s.rename, s.shrink = list(stubs), ir, model, dict(rename or {}), list(shrink)
         s.variants = variants or [{}]
@@ -335,7 +336,8 @@ def main():
     t0 = time.time()
     spec = importlib.util.spec_from_file_location('obl', os.path.join(VERIF, 'obligations', a.prop + '.py'))
     mod = importlib.util.module_from_spec(spec); mod.Ob = Ob; spec.loader.exec_module(mod)
-    obs = [o for o in mod.OBLIGATIONS if (a.tier == 'thorough' or o.tier == 'quick') and a.only in o.name]
+    obs = [o for o in mod.OBLIGATIONS if (o.tier != 'fallback') and (a.tier == 'thorough' or o.tier == 'quick') and a.only in o.name]
+    fallbacks = {o.name: o for o in mod.OBLIGATIONS if o.tier == 'fallback'}
     if a.tier == 'thorough' and hasattr(mod, 'thorough_overrides'): obs = mod.thorough_overrides(obs)
     work = tempfile.mkdtemp(prefix=f'verif_{a.prop}_', dir=os.environ.get('VERIF_TMP', '/tmp'))
     run = Run(a.prop, a.tier, work, a.jobs)
@@ -371,7 +373,26 @@ def main():
                 r['status'] = 'inconclusive'; r['notes'].append('only unwinding assertions failed: loop bound too small for this tree'); inconclusive.append(r)
                 print(f"[{a.prop}] {r['obligation']}: unwinding bound exceeded -> inconclusive: {r['counterexample']['failures'][:3]}"); continue
             ok, text = replay(run, o, r)
+            if not ok and o.retry_defines:
+                # the counterexample may rest on a contract that is weaker than the real environment: look for one under the tight contract
+                for dfn in o.retry_defines:
+                    q2 = run_query(run, o, r['variant'], dict(dir=r['dir']), False, [dfn]); q2['kind'] = 'retry:' + dfn; r['queries'].append(q2)
+                    if q2['verdict'] == 'fails':
+                        r['counterexample'] = dict(inputs=extract_inputs(open(q2['log']).read()), failures=q2['failures'])
+                        ok, text = replay(run, o, r)
+                        if ok: break
             r['replay'] = dict(reproduced=ok, output=text[-3000:])
+            if not ok and o.fallback and o.fallback in fallbacks:
+                # abstraction-level counterexample did not reproduce: decide with the concrete (bit-precise) formulation of the same obligation
+                fo = fallbacks[o.fallback]
+                for fv in fo.variants:
+                    if not all(r['variant'].get(k) == val for k, val in fv.items() if k in r['variant']): continue
+                    fr = process(run, fo, fv, findings)
+                    print(f"[{a.prop}] fallback {fo.name} {variant_tag(fv)}: {fr['status']} " + ' '.join(f"{q['kind']}={q['verdict']}/{q['wall_s']}s" for q in fr['queries']), flush=True)
+                    r['queries'] += fr['queries']
+                    if fr['status'] == 'counterexample':
+                        ok, text = replay(run, fo, fr)
+                        if ok: r['counterexample'] = fr['counterexample']; r['dir'] = fr['dir']; break
             if ok:
                 os.makedirs(replays_dir, exist_ok=True)
                 path = os.path.join(replays_dir, f"{o.name}.{variant_tag(r['variant'])}.json")
